@@ -38,7 +38,9 @@ fn k_for(t: Tier, sk: RSkel) -> usize {
             }
         }
         Tier::Thorough => {
-            if sk.entries * sk.alts <= 2 {
+            if sk.entries * sk.alts == 1 {
+                4
+            } else if sk.entries * sk.alts <= 2 {
                 3
             } else {
                 2
